@@ -26,6 +26,11 @@ def plan(which, tr, sd):
                 if n >= 33 and cfg.opt == '-O0': cfg = cfgs[(k * 2 + r + sd + which + 1) % len(cfgs)]
                 if n > 33 and r == 1: continue
                 jobs.append((n, 'double' if (k + r) % 2 == 0 else 'float', cfg))
+        if which in (10, 11):
+            # block strategies split 40 = 20 + 20: the off-diagonal blocks go through tmatmul / tinverse with a column count that
+            # is neither a multiple of the vector width nor one more (masked-remainder kernels under AVX2 / AVX-512)
+            jobs.append((40, 'double', next(c for c in cfgs if c.isa == 'avx512')))
+            jobs.append((42, 'float', next(c for c in cfgs if c.isa == 'avx2')))
     else:
         for n in THOROUGH_SIZES:
             for ci, cfg in enumerate(cfgs):
